@@ -140,13 +140,13 @@ TEXT = {
 ADDENDA = {
     "C01": " Added: profiles rotlag / rules / laggard variants, validate-then-queue deliveries (host queue model), coalition replaying stale evidence and sending supplemental-data variants, DECIDE-level greedy decider (every decidable value is turned into a real decision of some undecided participant), forged DECIDE floods with repetition.",
     "C02": " Added: rotating-laggard profile with a coalition that keeps pushing one foreign chain with genuine COMMIT-bottom evidence; an honest participant with a diverged base view (same key and epoch, other power-table CID) in 12% of worlds; validate-then-queue deliveries; inputs of 125-137 tipsets (around and beyond the maximum chain length) in 1 of 40 quick worlds.",
-    "C03": " Added: solo engine (one real participant under a non-equivocating puppet committee, decisions checked as proofs); supplemental-data variants of coalition votes; cluster engine: 1-3 real F3 nodes end to end, the certificates stored by the host's own decision path (committees, delta, self-validation, Put) are validated with the reference and the production validator and compared across nodes; a node that terminated an instance must hold its certificate.",
+    "C03": " Added: solo engine (one real participant under a non-equivocating puppet committee, decisions checked as proofs); supplemental-data variants of coalition votes; cluster engine: 1-3 real F3 nodes end to end, the certificates stored by the host's own decision path (committees, delta, self-validation, Put) are validated with the reference and the production validator and compared across nodes; a node that terminated an instance must hold its certificate; an honest participant whose base or supplemental data diverges from the network's (it must refuse everything it hears; whatever it reports is judged against its own view).",
     "C06": " Added: up to 3 instances, coalition action poison-next-instance (queued round-0 vote that fails late-binding validation), stall detector in the closing phase (decided participants have nothing in flight and for longer than any phase timeout of the rounds reached nothing changed); inputs around and beyond the maximum chain length.",
     "C07": " Added: solo engine (single votes, quorum bursts, advance, lure actions; skips in 44% and sways in 21% of cases, all non-defensive branches of the state machine covered), scripted regression scenarios for the two gpbft fixes, diverged-base participant, validate-then-queue deliveries.",
     "C08": " Added: powers of every bit length 1..130 with extra weight at machine-word boundaries; every table also built by several Add calls in a generated order (consistency after every call, equality with the table built at once).",
-    "C09": " Added: long histories through the public API (1026-1700 certificates in quick, to 4500 in thorough): power tables at offsets 1022-1027 and 1438/1439 past every stored table, ranges of length 1023-1441 and ranges running past the end, both reopen variants.",
+    "C09": " Added: long histories through the public API (1026-1700 certificates in quick, to 4500 in thorough): power tables at offsets 1022-1027 and 1438/1439 past every stored table, ranges of length 1023-1441 and ranges running past the end, both reopen variants; 2-4 concurrent writers racing different certificates for the same next instance (what is served once never changes, no certificate key rewritten).",
     "C10": " Added: CreateStore as a third way of reopening the surviving map (refused while a store exists; otherwise a fresh store that keeps a certificate across the next restart).",
-    "C11": " Added: the model learns which file received an entry from the directory (no mirror of the rotation rule); histories continue from a tail torn strictly inside a record (appends, rotations, purges and restarts behind it).",
+    "C11": " Added: the model learns which file received an entry from the directory (no mirror of the rotation rule); histories continue from a tail torn strictly inside a record (appends, rotations, purges and restarts behind it); appends whose encoder fails after a generated number of bytes (refused, must leave no trace).",
     "C12": " Added: node action torn-crash-restart (a strict prefix of a record left at the end of the newest WAL file before an abrupt restart); after a restart half of the requests conflict with an earlier request of the same slot; rounds {0,1,5,6,7,13}; node action big-burst (14 identities vote for a maximum-size chain: one WAL file grows past 1 MiB and rolls over).",
     "C14": " Added: overlimit operator (an independent CBOR walker locates every array/map/string header of a valid encoding; one is replaced by a header announcing 2^31..2^64-1: decoding must fail); JSON round trips of tipsets, chains, supplemental data, payloads and certificates; boundary-size chains (100-128 tipsets with 760-byte keys); decoding into a value that already held another chain whose key had been read (raw and through the encoding package): every derived datum must be that of the decoded chain.",
     "C15": " Added: metamorphic deep-reorg variant (the EC view forks off before the bootstrap tipset while certificates are stored); cluster engine: certificates stored by real nodes must start at the previous head, run along EC parent links with EC's table CIDs, carry the delta between the node-rule committees and commit to the next one; the EC backend serves power tables in any member order; the inputs object is reused across instances and asked again after the EC head moved.",
